@@ -11,7 +11,7 @@ use reval::expr::Index;
 use reval::prelude::*;
 use std::collections::BTreeMap;
 
-const KEYS: [&str; 10] = ["a", "A", "a_", "aa", "facts", "b", "ab", "Facts", "a1", "x"];
+const KEYS: [&str; 13] = ["a", "A", "a_", "aa", "facts", "b", "ab", "Facts", "a1", "x", "0", "1", "10"];
 
 #[derive(Clone, Debug)]
 enum Step {
@@ -134,6 +134,22 @@ impl PathCase {
         e
     }
 
+    /// The same path with every step built through the public `From` impls of `Index`.
+    fn expr_via_from(&self) -> Expr {
+        let mut e = match &self.root {
+            None => Expr::reff("facts"),
+            Some(n) => Expr::reff(n),
+        };
+        for (i, s) in self.steps.iter().enumerate() {
+            e = match s {
+                Step::Field(k) if i % 2 == 0 => Expr::index(e, Index::from(k.as_str())),
+                Step::Field(k) => Expr::index(e, Index::from(k.clone())),
+                Step::At(i) => Expr::index(e, Index::from(*i)),
+            };
+        }
+        e
+    }
+
     /// The direct walk.
     fn want(&self) -> Want {
         let mut cur: Value = match &self.root {
@@ -206,6 +222,9 @@ fn check_path(c: &PathCase) -> Verdict {
     let want = c.want();
     let expr = c.expr();
     let mut exprs = vec![("constructors", expr.clone())];
+    if !c.steps.is_empty() {
+        exprs.push(("from-impls", c.expr_via_from()));
+    }
     // through text as well when every name lexes as an identifier
     let textable = c.root.as_deref().map(ident_like).unwrap_or(true)
         && c.steps.iter().all(|s| match s {
@@ -284,6 +303,159 @@ fn random_path(bytes: &[u8]) -> PathCase {
     };
     let (root, steps) = gen_path(&mut d, &input);
     PathCase { input, root, steps }
+}
+
+// ---- bundles: several lookups inside one evaluation ----------------------------------------------------------
+
+/// 2-5 access paths evaluated inside one expression (a list), rooted at fields and at symbols of the same names
+/// whose values have the same shape but different leaves: every element must be what the path alone gives.
+#[derive(Clone, Debug)]
+struct Bundle {
+    input: Value,
+    symbols: BTreeMap<String, Value>,
+    /// (rooted at a symbol, root name, steps)
+    paths: Vec<(bool, String, Vec<Step>)>,
+}
+
+fn relabel(v: &Value) -> Value {
+    match v {
+        Value::String(s) => Value::String(format!("sym:{s}")),
+        Value::Int(i) => Value::Int(i + 500_000),
+        Value::Vec(items) => Value::Vec(items.iter().map(relabel).collect()),
+        Value::Map(m) => Value::Map(m.iter().map(|(k, x)| (k.clone(), relabel(x))).collect()),
+        other => other.clone(),
+    }
+}
+
+fn random_bundle(bytes: &[u8]) -> Bundle {
+    let mut d = Dec::new(bytes);
+    let mut counter = 0;
+    let n = 1 + d.below(4);
+    let mut m = BTreeMap::new();
+    for _ in 0..n {
+        let depth = 1 + d.below(3) as u32;
+        m.insert(d.pick(&KEYS[..10]).to_string(), gen_tree(&mut d, depth, &mut counter));
+    }
+    let input = Value::Map(m.clone());
+    // symbols: mostly the same names as the fields, same shape, other leaves; sometimes absent
+    let mut symbols = BTreeMap::new();
+    for (k, v) in &m {
+        if d.below(12) != 11 {
+            symbols.insert(k.clone(), relabel(v));
+        }
+    }
+    symbols.insert("only_symbol".into(), Value::Int(1));
+    let np = 2 + d.below(4);
+    let mut paths: Vec<(bool, String, Vec<Step>)> = vec![];
+    for i in 0..np {
+        // usually repeat an earlier path with the other kind of root
+        if i > 0 && d.below(3) != 2 {
+            let (sym, name, steps) = paths[d.below(paths.len())].clone();
+            let flip = d.below(4) != 3;
+            paths.push((sym != flip, name, steps));
+            continue;
+        }
+        // mostly resolving paths: an existing root, steps that follow the data (a deviation once in ten)
+        let keys: Vec<&String> = m.keys().collect();
+        let name = if d.below(10) == 9 { d.pick(&KEYS[..10]).to_string() } else { keys[d.below(keys.len())].clone() };
+        let mut cur = m.get(&name);
+        let mut steps = vec![];
+        for _ in 0..d.below(4) {
+            let step = match cur {
+                _ if d.below(10) == 9 => {
+                    if d.bool() {
+                        Step::Field(d.pick(&KEYS).to_string())
+                    } else {
+                        Step::At(d.below(5))
+                    }
+                }
+                Some(Value::Map(mm)) if !mm.is_empty() => {
+                    let ks: Vec<&String> = mm.keys().collect();
+                    Step::Field(ks[d.below(ks.len())].clone())
+                }
+                Some(Value::Vec(v)) if !v.is_empty() => Step::At(d.below(v.len())),
+                _ => break,
+            };
+            cur = match (cur, &step) {
+                (Some(Value::Map(mm)), Step::Field(k)) => mm.get(k),
+                (Some(Value::Vec(v)), Step::At(i)) => v.get(*i),
+                _ => None,
+            };
+            steps.push(step);
+        }
+        paths.push((d.bool(), name, steps));
+    }
+    Bundle { input, symbols, paths }
+}
+
+impl Bundle {
+    fn path_expr(&self, i: usize) -> Expr {
+        let (sym, name, steps) = &self.paths[i];
+        let mut e = if *sym { Expr::symbol(name) } else { Expr::reff(name) };
+        for s in steps {
+            e = match s {
+                Step::Field(k) => Expr::index(e, Index::Map(k.clone())),
+                Step::At(i) => Expr::index(e, Index::Vec(*i)),
+            };
+        }
+        e
+    }
+    fn expr(&self) -> Expr {
+        Expr::Vec((0..self.paths.len()).map(|i| self.path_expr(i)).collect())
+    }
+    /// direct walk of path i: Ok(value) / Err(description of the error class)
+    fn want(&self, i: usize) -> Result<Value, String> {
+        let (sym, name, steps) = &self.paths[i];
+        if *sym {
+            match self.symbols.get(name) {
+                None => Err(format!("invalid symbol {name}")),
+                Some(v) => match (PathCase { input: v.clone(), root: None, steps: steps.clone() }).want() {
+                    Want::Val(x) => Ok(x),
+                    _ => Err("type error".into()),
+                },
+            }
+        } else {
+            match (PathCase { input: self.input.clone(), root: Some(name.clone()), steps: steps.clone() }).want() {
+                Want::Val(x) => Ok(x),
+                Want::TypeError => Err("type error".into()),
+                Want::UnknownRef(n) | Want::NonMapRef(n) => Err(format!("unknown reference {n}")),
+            }
+        }
+    }
+}
+
+fn check_bundle(b: &Bundle) -> Verdict {
+    let wants: Vec<Result<Value, String>> = (0..b.paths.len()).map(|i| b.want(i)).collect();
+    let case = EvalCase { expr: b.expr(), facts: b.input.clone(), fns: BTreeMap::new(), symbols: b.symbols.clone() };
+    let r = match observe_via_ruleset(&case) {
+        Actual::Done(r) => r,
+        Actual::Panic(p) => return Err(Issue::new("bundle:panic", format!("panic {p}; case {}", case.render()))),
+        Actual::Pending => return Err(Issue::new("bundle:pending", format!("pending; case {}", case.render()))),
+    };
+    let first_err = wants.iter().find_map(|w| w.as_ref().err());
+    let ok = match (first_err, &r) {
+        (None, Ok(Value::Vec(items))) => {
+            items.len() == wants.len() && items.iter().zip(&wants).all(|(x, w)| same_value(x, w.as_ref().unwrap(), true))
+        }
+        (Some(e), Err(reval::Error::InvalidType)) => e == "type error",
+        (Some(e), Err(reval::Error::UnknownRef(n))) => *e == format!("unknown reference {n}"),
+        (Some(e), Err(reval::Error::InvalidSymbol(n))) => *e == format!("invalid symbol {n}"),
+        _ => false,
+    };
+    if ok {
+        Ok(())
+    } else {
+        Err(Issue::new(
+            "bundle:element-differs-from-path-alone",
+            format!(
+                "lookups inside one evaluation: every element must be what its path gives on its own: expected {:?}, implementation {}; case {} with symbols {:?}",
+                wants,
+                me::show_actual(&r),
+                case.render(),
+                b.symbols.iter().map(|(k, v)| format!("{k}={}", show_value(v))).collect::<Vec<_>>()
+            ),
+        ))
+    }
 }
 
 // ---- symbols and functions -----------------------------------------------------------------
@@ -434,19 +606,13 @@ pub fn run(ctx: &Ctx) {
         "Generated: nested inputs to depth 4 (maps with near-miss keys a/A/a_/aa/facts/Facts/ab/a1, lists of length 0-4, None, scalars) \
          whose leaves are unique tokens, x access paths that follow the input or deviate at any level (absent key, index len / len-1 / \
          usize::MAX, field into list, index into map, steps into scalars and into None), rooted at `facts` or at an identifier, built \
-         through constructors and, when every name lexes as an identifier, also through text; symbol and function tables over a \
+         through constructors, through the From impls of Index (text keys that look like numbers stay text keys) and, when every name lexes as an identifier, also through text; bundles of 2-5 paths evaluated inside one expression, rooted at fields and at symbols of the same names with same-shaped but different values (each element must be what its path gives alone); symbol and function tables over a \
          near-miss name pool with lookups of registered and unregistered names while the input has fields of the same names. \
          Oracle: a direct walk of the input (unique leaves make wrong-path data observable); naming errors must carry exactly the \
          name. Non-trivial: path length >= 2 (root + steps) or a near-miss key present in the input.",
     );
 
-    super::regressions::run(ctx, "C10", |j| {
-        if j.get("lookups").is_some() {
-            NameCase::from_json(j).map(|c| check_names(&c))
-        } else {
-            PathCase::from_json(j).map(|c| check_path(&c))
-        }
-    });
+    super::regressions::run(ctx, "C10", |j| replay(j));
 
     let n = ctx.tier.pick(400_000u64, 6_000_000u64);
     ctx.random(
@@ -514,6 +680,17 @@ pub fn run(ctx: &Ctx) {
             }
         }
     }
+    // wide containers: positions and keys at both ends and in the middle of lists / maps of 31 ... 1000 entries
+    for n in [31usize, 32, 33, 255, 256, 257, 1000] {
+        let list = Value::Vec((0..n).map(|i| Value::String(format!("item#{i}"))).collect());
+        let map = Value::Map((0..n).map(|i| (format!("key{i}"), Value::Vec(vec![Value::Int(i as i128), Value::String(format!("val#{i}"))]))).collect());
+        let input = Value::Map([("list".to_string(), list), ("map".to_string(), map)].into_iter().collect());
+        for i in [0usize, 1, n / 2, n - 2, n - 1, n, n + 1] {
+            long_cases.push(PathCase { input: input.clone(), root: Some("list".into()), steps: vec![Step::At(i)] });
+            long_cases.push(PathCase { input: input.clone(), root: Some("map".into()), steps: vec![Step::Field(format!("key{i}")), Step::At(1)] });
+            long_cases.push(PathCase { input: input.clone(), root: None, steps: vec![Step::Field("map".into()), Step::Field(format!("key{i}")), Step::At(0)] });
+        }
+    }
     ctx.enumerate(
         "long-paths",
         long_cases.len() as u64,
@@ -569,6 +746,30 @@ pub fn run(ctx: &Ctx) {
         "text",
     );
 
+    let nb = ctx.tier.pick(150_000u64, 2_000_000u64);
+    ctx.random(
+        "path-bundles",
+        nb,
+        || gen::recipe(300),
+        |bytes, acc| {
+            let b = random_bundle(bytes);
+            if let Some(acc) = acc {
+                let twins = b.paths.iter().any(|(s, n, st)| b.paths.iter().any(|(s2, n2, st2)| s != s2 && n == n2 && format!("{st:?}") == format!("{st2:?}") && !st.is_empty()));
+                let all_ok = (0..b.paths.len()).all(|i| b.want(i).is_ok());
+                let class = match (twins, all_ok) {
+                    (true, true) => "bundle:field-and-symbol-twins:all-resolve",
+                    (true, false) => "bundle:field-and-symbol-twins:some-error",
+                    (false, true) => "bundle:other:all-resolve",
+                    (false, false) => "bundle:other:some-error",
+                };
+                acc.case(class, twins, || format!("{} on {}", show_expr(&b.expr()), show_value(&b.input)));
+            }
+            check_bundle(&b)
+        },
+        |bytes| serde_json::json!({"bundle_bytes": bytes, "text": show_expr(&random_bundle(bytes).expr())}),
+        "bundle",
+    );
+
     let n2 = ctx.tier.pick(20_000u64, 300_000u64);
     ctx.random(
         "symbol-function-tables",
@@ -587,9 +788,24 @@ pub fn run(ctx: &Ctx) {
 }
 
 pub fn replay(j: &serde_json::Value) -> Option<Verdict> {
+    if let Some(b) = j.get("bundle_bytes").and_then(|b| b.as_array()) {
+        let bytes: Vec<u8> = b.iter().filter_map(|x| x.as_u64().map(|x| x as u8)).collect();
+        return Some(check_bundle(&random_bundle(&bytes)));
+    }
     if j.get("lookups").is_some() {
         NameCase::from_json(j).map(|c| check_names(&c))
     } else {
         PathCase::from_json(j).map(|c| check_path(&c))
+    }
+}
+
+/// Entry point of the `set_diff` fuzz target: selector 0 = access path, 1 = symbol / function table.
+pub(crate) fn fuzz_bytes(sel: u8, bytes: &[u8]) -> Verdict {
+    if sel % 3 == 2 {
+        check_bundle(&random_bundle(bytes))
+    } else if sel % 2 == 0 {
+        check_path(&random_path(bytes))
+    } else {
+        check_names(&random_names(bytes))
     }
 }
